@@ -201,13 +201,20 @@ inductive TagOk (c : WCfg) (tbl : List StrEntry) (tp : Nat) (nm : Bytes) : Optio
       TagOk c tbl tp nm (swFor tp r.page) (.tok r.token)
   | lit (off : Nat) : (∃ e ∈ tbl, e.offset = off ∧ e.str = nm) → TagOk c tbl tp nm none (.lit off)
 
-theorem encTagW_spec (c : WCfg) (name : Name) (hc ha : Bool) (st st' : WSt)
+/-- How the tag written relates to `current_tag`: a token tag is the row found, under its page; a
+    literal tag is written exactly when no row was found. -/
+def TagLink (c : WCfg) (name : Name) (st : WSt) (sw : Option Nat) (tag : Tag) : Prop :=
+  match foundOf c name st with
+  | some r => sw = swFor st.tagPage r.page ∧ tag = .tok r.token
+  | none => sw = none ∧ ∃ off, tag = .lit off
+
+theorem encTagW_spec' (c : WCfg) (name : Name) (hc ha : Bool) (st st' : WSt)
     (hl : langOk c.lang = true) (hn : nameOver c.lang name = true)
     (h : encTagW c name hc ha st = .ok st') :
     ∃ sw tag, st'.out = st.out ++ (serSw sw ++ serTag (tagFlags ha hc) tag) ∧
       st'.tagPage = swPage sw st.tagPage ∧ st'.attrPage = st.attrPage ∧
       st'.curTag = foundOf c name st ∧
-      TblExt c st st' ∧ TagOk c st'.strtbl st.tagPage name.cName sw tag := by
+      TblExt c st st' ∧ TagOk c st'.strtbl st.tagPage name.cName sw tag ∧ TagLink c name st sw tag := by
   have hfound : ∀ found, found = foundOf c name st →
       (match found with
         | some r => r.token % 256
@@ -252,7 +259,8 @@ theorem encTagW_spec (c : WCfg) (name : Name) (hc ha : Bool) (st st' : WSt)
     subst h
     have ho := tagTokenW_out (r.token + tagFlags ha hc) (r.page % 256) { st with curTag := some r }
     simp only [Nat.mod_mod] at ho
-    refine ⟨swFor st.tagPage r.page, .tok r.token, ?_, ?_, ho.2.2.1, ?_, TblExt.of_eq ho.2.2.2.1 ho.2.2.2.2, ?_⟩
+    refine ⟨swFor st.tagPage r.page, .tok r.token, ?_, ?_, ho.2.2.1, ?_, TblExt.of_eq ho.2.2.2.1 ho.2.2.2.2, ?_,
+      by simp only [TagLink, hf, and_self]⟩
     · rw [ho.1]
       simp only [serTag, byte, swFor, Nat.mod_mod]
     · rw [ho.2.1, swPage_swFor]
@@ -269,7 +277,8 @@ theorem encTagW_spec (c : WCfg) (name : Name) (hc ha : Bool) (st st' : WSt)
       injection h with h
       subst h
       obtain ⟨e, he, ho, hstr⟩ := strtblAdd_idx { st with curTag := none } name.cName none
-      refine ⟨none, .lit (strtblAdd { st with curTag := none } name.cName none).2, ?_, ?_, ?_, ?_, ?_, ?_⟩
+      refine ⟨none, .lit (strtblAdd { st with curTag := none } name.cName none).2, ?_, ?_, ?_, ?_, ?_, ?_,
+        by simp only [TagLink, hf, true_and]; exact ⟨_, rfl⟩⟩
       · simp only [emit_out, strtblAdd_out, serSw, List.nil_append, serTag, mb]
         congr 2
         cases hc <;> cases ha <;> rfl
@@ -281,5 +290,15 @@ theorem encTagW_spec (c : WCfg) (name : Name) (hc ha : Bool) (st st' : WSt)
         exact t1.trans (t2.trans (TblExt.of_eq (emit_strtbl _ _) (emit_strtblLen _ _)))
       · exact .lit _ ⟨e, he, ho, hstr⟩
     · cases h
+
+theorem encTagW_spec (c : WCfg) (name : Name) (hc ha : Bool) (st st' : WSt)
+    (hl : langOk c.lang = true) (hn : nameOver c.lang name = true)
+    (h : encTagW c name hc ha st = .ok st') :
+    ∃ sw tag, st'.out = st.out ++ (serSw sw ++ serTag (tagFlags ha hc) tag) ∧
+      st'.tagPage = swPage sw st.tagPage ∧ st'.attrPage = st.attrPage ∧
+      st'.curTag = foundOf c name st ∧
+      TblExt c st st' ∧ TagOk c st'.strtbl st.tagPage name.cName sw tag := by
+  obtain ⟨sw, tag, h1, h2, h3, h4, h5, h6, _⟩ := encTagW_spec' c name hc ha st st' hl hn h
+  exact ⟨sw, tag, h1, h2, h3, h4, h5, h6⟩
 
 end Wbxml.Lemmas.EncW
